@@ -186,6 +186,16 @@ def validate(pkg: Package, src: Package | None, pivot_tables=()):
             errs.append(("data_member_missing", {}, {"file": fn, "data_id": d.identifier}))
         elif d.HasField("materialized_length") and d.materialized_length != len(pkg.members[fn]):
             errs.append(("data_member_length", {}, {"file": fn, "declared": d.materialized_length, "actual": len(pkg.members[fn])}))
+    # lookup lists: a key names one entry (a cell's id must resolve to exactly one entry)
+    for i, o in pkg.objs.items():
+        if type(o.msg).__name__ != "TableDataList":
+            continue
+        if i in S and S[i].raw == o.raw:
+            continue
+        keys = [e.key for e in o.msg.entries]
+        dups = sorted(k for k, v in Counter(keys).items() if v > 1)
+        if dups:
+            errs.append(("data_list_keys_not_unique", {"list_type": int(o.msg.listType)}, {"object": i, "duplicate_keys": dups[:6], "n_entries": len(keys)}))
     # rule 5: tables
     for i, o in pkg.objs.items():
         if type(o.msg).__name__ != "TableModelArchive":
@@ -349,7 +359,7 @@ def emit(pkg: Package, out_path: str, rng=None, rechunk=False, shuffle_members=F
             p = iwa.build(pkg.segments[n])
             if rechunk and rng is not None and len(p) > 2:
                 k = rng.randint(1, 5)
-                cuts = sorted({rng.randrange(1, len(p)) for _ in range(k)})
+                cuts = sorted({rng.randrange(1, len(p)) for _ in range(k)} | set(range(65536, len(p), 65536)))
                 mask = rng.getrandbits(len(cuts) + 1) if rng.random() < .5 else 0
                 blobs[n], _ = iwa.frame(p, cuts, stored=lambda i, m=mask: bool(m >> i & 1))
             else:
